@@ -221,12 +221,12 @@ func init() {
 			}
 		}
 		return false
-	}, nil)
+	}, directedC12)
 	register(&Check{Prop: "C12", Level: "exploration",
 		Rule:   "scenario family: every status write is checked (bounds, observedGeneration, currentRevision transition); calm family: after convergence the counters are compared with a census of the live pods; non-trivial = reconcile with a status write; distinct = distinct (snapshot signature, write list)",
 		Assume: simAssumptions, Cases: func(t string) int { return scenarioCases(360, 18000)(t) + scenarioCases(160, 8000)(t) },
 		Run:    both(c12fam, scenarioCases(360, 18000), calmFamily("C12")),
-		Floors: []string{"status_writes_checked", "current_revision_transitions_checked", "census_fixed_points_checked"}})
+		Floors: []string{"status_writes_checked", "current_revision_transitions_checked", "census_fixed_points_checked", "status_census_checks", "status_conflict_then_retry_scenarios"}})
 	register(&Check{Prop: "C13", Level: "exploration",
 		Rule:   "scenario family with own/adopted/foreign/orphan revisions; non-trivial = reconcile that deleted a revision",
 		Assume: simAssumptions, Cases: scenarioCases(480, 24000),
@@ -243,7 +243,7 @@ func init() {
 		Rule:   "scenario family with pause / deletion flags raised at random moments; non-trivial = reconcile of a paused or deleting set",
 		Assume: simAssumptions, Cases: scenarioCases(480, 24000),
 		Run:    scenarioFamily("C11", cfgDefault, mon.CheckC11, func(v *mon.View) bool { return v.Paused || v.Deleting }, nil),
-		Floors: []string{"paused_reconciles_checked", "deleting_reconciles_checked"}})
+		Floors: []string{"paused_reconciles_checked", "deleting_reconciles_checked", "reconciles_of_sets_deleting_in_api"}})
 }
 
 var directedC03 []func(*fam)
@@ -277,7 +277,7 @@ func init() {
 			}
 			return false
 		}, directedC08),
-		Floors: []string{"revision_creates_checked", "revision_renumbers_checked", "successful_reconciles_checked", "unchanged_template_reconciles", "name_collisions_seen"}})
+		Floors: []string{"revision_creates_checked", "revision_renumbers_checked", "successful_reconciles_checked", "unchanged_template_reconciles", "name_collisions_seen", "rollbacks_after_collision"}})
 }
 
-var directedC06, directedC08 []func(*fam)
+var directedC06, directedC08, directedC12 []func(*fam)
